@@ -4,7 +4,7 @@ from common import *
 
 LENS = 'cat'
 TRACE_MODULE = 'Trace_IggyCatalogue'
-FAMILIES = {'C05': ['streams', 'topics', 'groups', 'seeded', 'users'], 'C06': ['streams', 'topics', 'groups', 'seeded', 'users'],
+FAMILIES = {'C05': ['streams', 'topics', 'groups', 'seeded', 'users', 'race'], 'C06': ['streams', 'topics', 'groups', 'seeded', 'users'],
             'C19': ['topics', 'users'],
             'C13': ['streams', 'topics', 'users'],
             # C08 "assigned to exactly one CURRENT member": memberships across several topics and streams (joins, leaves, dropped
@@ -32,6 +32,20 @@ GEN = {
 
 
 def mc_family(family, tier, wd):
+    if family == 'race':
+        # two clients at once: the lock discipline of the handlers (IggyCatalogueMT); the as-found one must be refuted
+        consts = dict(Topics='{1,2}' if tier == 'quick' else '{1,2,3}', PurgeExclusive='TRUE')
+        cfg = os.path.join(wd, 'MC_race.cfg')
+        write_cfg(cfg, 'Spec', consts, invariants=['Replayable', 'SameCatalogue'])
+        r = tlc_mc('IggyCatalogueMT', cfg, wd, workers=4, timeout=1200)
+        cfg2 = os.path.join(wd, 'MC_race_asfound.cfg')
+        write_cfg(cfg2, 'Spec', dict(Topics='{1}', PurgeExclusive='FALSE'), invariants=['Replayable'])
+        r2 = tlc_mc('IggyCatalogueMT', cfg2, wd, workers=1, timeout=300)
+        if r2['ok']:
+            raise ToolError('the as-found lock discipline (purge under the shared lock) was NOT refuted: the model lost its teeth')
+        log(f'race: IggyCatalogueMT {r["distinct"]} distinct states; as-found discipline refuted as expected')
+        r['consts'] = dict(consts, negative_control='PurgeExclusive=FALSE refuted: ' + ','.join(r2['violated']))
+        return r
     g = GEN[family]
     consts = dict(g['consts']); consts['MaxOps'] = g['depth'] + (1 if tier == 'quick' else 2)
     cfg = os.path.join(wd, f'MC_{family}.cfg')
@@ -123,6 +137,15 @@ def build_scenarios(families, tier, wd, seed):
     scenarios, stats = [], {}
     n = 0
     for fam in families:
+        if fam == 'race':
+            # two clients at once, the create's journal entry held back at the guarded schedule point (see cat_lens.rs:run_race)
+            for pair in ('topic', 'stream'):
+                for rep in range(2 if tier == 'quick' else 10):
+                    n += 1
+                    scenarios.append(dict(id=f'race-{pair}-{n}', family='race', cfg=dict(cache='off', transport='tcp'), seed=rnd.randrange(1 << 30),
+                                          steps=[dict(op='race', pair=pair)]))
+            stats[fam] = dict(pairs=2)
+            continue
         g = GEN[fam]
         paths, walks = gen_scripts(fam, tier, wd, seed)
         budget = {'quick': 150, 'thorough': 3000}[tier]
@@ -166,6 +189,10 @@ def attribute(prop, scn, events_bad):
                 if (ev == 'restart') == (prop == 'C05'):
                     out.append((i, ev, lab))
                 continue
+            if ev == 'race':
+                if prop == 'C05':
+                    out.append((i, ev, lab))
+                continue
             new = not any(b[0] == name for b in before)
             if ev == 'restart':
                 if prop == 'C05' and (new or name.startswith('C05.')):
@@ -177,6 +204,8 @@ def attribute(prop, scn, events_bad):
 
 def nontrivial(prop, scn, evs):
     ops = [s['op'] for s in scn['steps']]
+    if ops == ['race']:
+        return any(e['ev'] == 'race' and e['acks'] == ['ok', 'ok'] for e in evs)
     creates = [s for s in scn['steps'] if s['op'].startswith('create_') and 'id' in s]
     mixed = any(s['id'] == 0 for s in creates) and any(s['id'] != 0 for s in creates)
     if prop == 'C13':
